@@ -135,7 +135,48 @@ class ClassInfo:
 _CANON_DIGEST = None
 
 
-def _canonical_tree(src, path, inline):
+IMPORTED_HELPER_PREFIX = "_hgsaimp_"
+NEVER_IMPORTED = {"named", "cached", "serializable"}       # wrapper functions the rules of C17 reason about as atoms
+
+
+def _parse_with_donors(src, path, donors):
+    """parse(src); every donor - a small module-level function of another module of the package that validates its argument and raises
+    (imported here with `from m import f`) - is appended as a private copy and its call sites renamed to it, so that the helper
+    inliner (N8) treats the imported validator exactly like a private helper of this module"""
+    tree = ast.parse(src, filename=path)
+    if not donors:
+        return tree
+    stored = {n.id for n in ast.walk(tree) if isinstance(n, ast.Name) and isinstance(n.ctx, (ast.Store, ast.Del))}
+    stored |= {n.name for n in ast.walk(tree) if isinstance(n, (ast.FunctionDef, ast.ClassDef, ast.AsyncFunctionDef))}
+    stored |= {a.arg for n in ast.walk(tree) if isinstance(n, (ast.FunctionDef, ast.Lambda)) for a in n.args.args + n.args.kwonlyargs + n.args.posonlyargs}
+    last = max((getattr(n, "end_lineno", 0) or 0 for n in tree.body), default=0)
+    for name, dsrc in donors:
+        if name in stored:
+            continue
+        fn = ast.parse(dsrc).body[0]
+        fn.name = IMPORTED_HELPER_PREFIX + name
+        for x in ast.walk(fn):
+            if hasattr(x, "lineno"):
+                x.lineno = x.end_lineno = last + 1
+        used = False
+        for n in ast.walk(tree):
+            if isinstance(n, ast.Call) and isinstance(n.func, ast.Name) and n.func.id == name:
+                n.func.id = fn.name
+                used = True
+        if used:
+            tree.body.append(fn)
+    return tree
+
+
+def _strip_donors(tree):
+    tree.body[:] = [n for n in tree.body if not (isinstance(n, ast.FunctionDef) and n.name.startswith(IMPORTED_HELPER_PREFIX))]
+    for n in ast.walk(tree):
+        if isinstance(n, ast.Name) and n.id.startswith(IMPORTED_HELPER_PREFIX):
+            n.id = n.id[len(IMPORTED_HELPER_PREFIX):]
+    return tree
+
+
+def _canonical_tree(src, path, inline, donors=()):
     """canonicalise(parse(src)), memoised on disk by the digest of the source text and of the canonicaliser's own code.
     The analysis always starts from the current text of the file; only the (pure) rewriting of identical text is reused.
     HGSA_NO_CACHE=1 disables the cache; an unwritable cache directory is ignored."""
@@ -144,8 +185,9 @@ def _canonical_tree(src, path, inline):
     from .canon import canonicalise
 
     global _CANON_DIGEST
+    donors = tuple(donors) if inline else ()
     if os.environ.get("HGSA_NO_CACHE"):
-        return canonicalise(ast.parse(src, filename=path), inline=inline)
+        return _strip_donors(canonicalise(_parse_with_donors(src, path, donors), inline=inline))
     here = os.path.dirname(os.path.abspath(__file__))
     if _CANON_DIGEST is None:
         h = hashlib.sha256()
@@ -154,7 +196,7 @@ def _canonical_tree(src, path, inline):
                 h.update(fh.read())
         h.update(sys.version.encode())
         _CANON_DIGEST = h.hexdigest()
-    key = hashlib.sha256((_CANON_DIGEST + ("I" if inline else "P") + src).encode("utf-8")).hexdigest()
+    key = hashlib.sha256((_CANON_DIGEST + ("I" if inline else "P") + src + "".join(f"\0{n}\0{d}" for n, d in donors)).encode("utf-8")).hexdigest()
     cdir = os.path.join(os.path.dirname(here), ".hgsa_cache")
     cpath = os.path.join(cdir, key + ".pkl")
     try:
@@ -162,7 +204,7 @@ def _canonical_tree(src, path, inline):
             return pickle.load(fh)
     except Exception:
         pass
-    tree = canonicalise(ast.parse(src, filename=path), inline=inline)
+    tree = _strip_donors(canonicalise(_parse_with_donors(src, path, donors), inline=inline))
     try:
         os.makedirs(cdir, exist_ok=True)
         names = os.listdir(cdir)
@@ -182,12 +224,12 @@ def _canonical_tree(src, path, inline):
 
 
 class Module:
-    def __init__(self, name, path, relpath, src, inline=True):
+    def __init__(self, name, path, relpath, src, inline=True, donors=()):
         self.name = name
         self.path = path
         self.relpath = relpath
         self.src = src
-        self.tree = _canonical_tree(src, path, inline)
+        self.tree = _canonical_tree(src, path, inline, donors)
         self.lines = src.split("\n")
         self.is_pkg = os.path.basename(path) == "__init__.py"
         self.imports = {}  # local name -> ("module", modname) | ("symbol", modname, symname)
@@ -232,6 +274,7 @@ class Repo:
         pkgdir = os.path.join(self.root, PKG)
         if not os.path.isdir(pkgdir):
             raise AnalysisError(f"package directory {pkgdir} not found")
+        files = []
         for dirpath, dirnames, filenames in os.walk(pkgdir):
             dirnames[:] = sorted(d for d in dirnames if d != "__pycache__")
             for fn in sorted(filenames):
@@ -247,12 +290,40 @@ class Repo:
                 modname = rel[:-3].replace(os.sep, ".")
                 if modname.endswith(".__init__"):
                     modname = modname[: -len(".__init__")]
+                files.append((modname, path, rel, src))
+        # validators defined in one module and imported by name into another (`from histogrammar.defs import numberFromJson`):
+        # small undecorated module-level functions that raise; they are inlined at their call sites like private helpers
+        donors = {}
+        raw = {}
+        if self.inline:
+            for modname, path, rel, src in files:
                 try:
-                    m = Module(modname, path, rel, src, inline=self.inline)
+                    t = ast.parse(src, filename=path)
                 except SyntaxError as e:
                     raise AnalysisError(f"cannot parse {rel}: {e}")
-                self.modules[modname] = m
-                self.by_relpath[rel] = m
+                raw[modname] = t
+                for n in t.body:
+                    if isinstance(n, ast.FunctionDef) and not n.decorator_list and n.name not in NEVER_IMPORTED and not n.name.startswith("__"):
+                        nst = sum(1 for x in ast.walk(n) if isinstance(x, ast.stmt))
+                        nested = any(isinstance(x, (ast.FunctionDef, ast.ClassDef, ast.Lambda, ast.Global, ast.Nonlocal, ast.Yield, ast.YieldFrom)) and x is not n for x in ast.walk(n))
+                        if nst <= 15 and not nested and any(isinstance(x, ast.Raise) for x in ast.walk(n)) and not (n.args.vararg or n.args.kwarg or n.args.kwonlyargs):
+                            donors[(modname, n.name)] = ast.unparse(n)
+        for modname, path, rel, src in files:
+            mine = []
+            if donors and modname in raw:
+                for n in raw[modname].body:
+                    if isinstance(n, ast.ImportFrom) and n.module:
+                        parts = modname.split(".")
+                        base = n.module if n.level == 0 else ".".join(parts[: len(parts) - n.level + (1 if rel.endswith("__init__.py") else 0)] + [n.module])
+                        for al in n.names:
+                            if al.asname is None and (base, al.name) in donors and base != modname:
+                                mine.append((al.name, donors[(base, al.name)]))
+            try:
+                m = Module(modname, path, rel, src, inline=self.inline, donors=tuple(sorted(mine)))
+            except SyntaxError as e:
+                raise AnalysisError(f"cannot parse {rel}: {e}")
+            self.modules[modname] = m
+            self.by_relpath[rel] = m
         for m in self.modules.values():
             self._scan_module(m)
 
@@ -422,6 +493,15 @@ class Repo:
 
     def own_method(self, c, name, required=True):
         r = c.methods.get(name)
+        if r is None:
+            # a concrete method shared through a mix-in of the package (Collection) counts as the class's own; the abstract roots
+            # (Container, Factory: stubs that raise NotImplementedError) do not
+            for k in self.mro(c)[1:]:
+                if k.name in ("Container", "Factory", "object"):
+                    continue
+                if name in k.methods:
+                    r = k.methods[name]
+                    break
         if r is None and required:
             raise AnalysisError(f"method {c.name}.{name} not defined in the class itself")
         return r
